@@ -34,6 +34,7 @@ fn dispatch(prop: &str, ctx: &Ctx, replay: Option<&[String]>) -> bool {
     "C13" => p!(c13),
     "C14" => p!(c14),
     "C15" => p!(c15),
+    "C16" => p!(c16),
     _ => false,
   }
 }
